@@ -21,6 +21,11 @@ def _worker(args):
     modname, spec, seed, tier = args
     t0 = time.time()
     try:
+        import resource      # a change under test that leaks without bound must end in MemoryError, not take the machine down
+        resource.setrlimit(resource.RLIMIT_AS, (8 * 1024 ** 3, 8 * 1024 ** 3))
+    except Exception:
+        pass
+    try:
         mod = importlib.import_module(modname)
         acc = mod.run_shard(spec, seed, tier)
         if not isinstance(acc, core.Acc):
